@@ -12,9 +12,11 @@ ownership-checked write / memcopy succeeds only on owned accessible ranges and c
 panic reasons and their precedence; LDC's restricted ownership never admits a heap write; the list of
 ownership-free write sites of the interpreter is exactly the hand-classified list of VM writes (regenerated
 from the Rust sources on every run); every opcode of the generated instruction table is classified.
-PARTIAL: that every instruction's implementation in `opcodes_impl.rs` writes only through these entry points
+`Props/C24Models.lean` proves `EveryInstructionStatement` for the opcode families whose execution is modelled in this
+repository (wide-integer, ECK1/ECR1/ED19, CCP/BLDD, ALU, jumps: 64 opcodes).
+PARTIAL: for the other 63 opcodes, that the implementation in `opcodes_impl.rs` writes only through these entry points
 with the classified ranges is tied by the `c24`/`c24b` correspondence streams (memory diff of every
-single-stepped instruction of generated programs), not by a proof about all of `opcodes_impl.rs`.
+single-stepped instruction of generated programs), not by a proof.
 -/
 import FuelVerif.Lemmas.Memory
 import FuelVerif.Model.WriteClass
@@ -185,8 +187,9 @@ theorem write_class_total : writeClassTotal = true := by decide
 
 /-- The statement about EVERY instruction, kept visible: for each single step of the interpreter, every changed
 address is allowed by the class of the executed opcode. It quantifies over the real interpreter's step function,
-which is not modelled in Lean; it is checked on generated programs by the `c24b` stream (the `verdict` function
-below is the Lean side of that check) — hence the `_partial` theorems above. -/
+which is not modelled in Lean as a whole; it is checked on generated programs by the `c24b` stream (the `verdict`
+function is the Lean side of that check). For the step relations given by the execution MODELS of 64 opcodes it is
+proved in `Props/C24Models.lean` (`every_modelled_instruction_holds`). -/
 def EveryInstructionStatement (step : StepObs → List (Nat × Nat) → Prop) : Prop :=
   ∀ o changes, step o changes → verdict memSize o changes = .ok ()
 
